@@ -5,6 +5,7 @@ import (
 	"go/ast"
 	"go/token"
 	"go/types"
+	"strings"
 
 	"defracheck/internal/eng"
 )
@@ -175,4 +176,186 @@ func ruleMinMaxTable(c *eng.Ctx) {
 		}
 		c.Floor(rule+":"+spec.label, n, 6)
 	}
+}
+
+// ruleAggPipeline: inline-array aggregates build an enumerable pipeline; documented semantics are
+// filter, then order, then offset, then limit. On no path may an earlier stage be applied after a
+// later one (a limit window cut before the filter counts/sums other items than "the first N
+// matching ones").
+func ruleAggPipeline(c *eng.Ctx) {
+	const rule = "AGG-PIPELINE"
+	rank := map[string]int{"Where": 1, "Sort": 2, "Skip": 3, "Take": 4}
+	names := []string{"", "filter (Where)", "order (Sort)", "offset (Skip)", "limit (Take)"}
+	n := 0
+	for _, fi := range c.P.FuncsIn("internal/planner") {
+		if fi.Decl.Body == nil || isTestFile(c.P, fi) {
+			continue
+		}
+		info := fi.Pkg.TypesInfo
+		stageOf := func(nd ast.Node) (int, token.Pos) {
+			r, pos := 0, token.NoPos
+			ast.Inspect(nd, func(x ast.Node) bool {
+				if _, isLit := x.(*ast.FuncLit); isLit {
+					return false
+				}
+				if call, ok := x.(*ast.CallExpr); ok {
+					nm := eng.CalleeName(info, call)
+					if i := strings.LastIndex(nm, "enumerable."); i >= 0 {
+						if k, ok := rank[nm[i+len("enumerable."):]]; ok && (r == 0 || k < r) {
+							r, pos = k, call.Pos()
+						}
+					}
+				}
+				return true
+			})
+			return r, pos
+		}
+		var flow *eng.FlowGraph
+		sites := 0
+		inspectNoLits(fi.Decl.Body, func(m ast.Node) {
+			as, ok := m.(*ast.AssignStmt)
+			if !ok {
+				return
+			}
+			r, _ := stageOf(as)
+			if r == 0 {
+				return
+			}
+			sites++
+			if flow == nil {
+				flow = eng.NewFlow(info, fi.Decl.Body)
+			}
+			start, ok := flow.PointOf(as)
+			if !ok {
+				return
+			}
+			var badPos token.Pos
+			badRank := 0
+			hit := forwardConsistent(info, flow, fi.Decl.Body, start, func(pt eng.Point, nd ast.Node) eng.Action {
+				if _, isAs := nd.(*ast.AssignStmt); !isAs {
+					return eng.Continue
+				}
+				if r2, p2 := stageOf(nd); r2 != 0 && r2 < r {
+					badPos, badRank = p2, r2
+					return eng.Hit
+				}
+				return eng.Continue
+			})
+			construct := fmt.Sprintf("%s:stage(%s)#%d:not-followed-by-earlier-stage", shortFn(fi), names[r], sites)
+			if hit {
+				c.Bad(rule, construct, badPos, fmt.Sprintf("on some path %s is applied after %s: the aggregate is computed over a window cut before the filter/order — not over the first N matching items", names[badRank], names[r]))
+			} else {
+				c.OK(rule, construct, as.Pos(), "stages follow filter → order → offset → limit on every path")
+			}
+		})
+		n += sites
+	}
+	c.Floor(rule, n, 6)
+}
+
+// forwardConsistent is Forward restricted to paths on which every stable condition atom (a leaf of
+// the branch conditions that mentions no variable assigned more than once in the body) has one
+// truth value: the walk is repeated for every valuation of those atoms (at most 2^10; beyond that
+// it degrades to the path-insensitive walk, which over-approximates).
+func forwardConsistent(info *types.Info, flow *eng.FlowGraph, body *ast.BlockStmt, start eng.Point, visit func(eng.Point, ast.Node) eng.Action) bool {
+	assigned := map[types.Object]int{}
+	ast.Inspect(body, func(n ast.Node) bool {
+		switch s := n.(type) {
+		case *ast.AssignStmt:
+			for _, l := range s.Lhs {
+				if o := eng.ObjOf(info, l); o != nil {
+					assigned[o]++
+				}
+			}
+		case *ast.IncDecStmt:
+			if o := eng.ObjOf(info, s.X); o != nil {
+				assigned[o] += 2
+			}
+		case *ast.RangeStmt:
+			for _, e := range []ast.Expr{s.Key, s.Value} {
+				if e != nil {
+					if o := eng.ObjOf(info, e); o != nil {
+						assigned[o] += 2
+					}
+				}
+			}
+		}
+		return true
+	})
+	var atoms []string
+	seen := map[string]bool{}
+	var leaves func(e ast.Expr)
+	leaves = func(e ast.Expr) {
+		e = ast.Unparen(e)
+		switch x := e.(type) {
+		case *ast.BinaryExpr:
+			if x.Op == token.LAND || x.Op == token.LOR {
+				leaves(x.X)
+				leaves(x.Y)
+				return
+			}
+		case *ast.UnaryExpr:
+			if x.Op == token.NOT {
+				leaves(x.X)
+				return
+			}
+		}
+		stable := true
+		ast.Inspect(e, func(n ast.Node) bool {
+			if id, ok := n.(*ast.Ident); ok {
+				if v, isVar := info.Uses[id].(*types.Var); isVar && assigned[v] > 1 {
+					stable = false
+				}
+			}
+			if _, ok := n.(*ast.CallExpr); ok {
+				if c, ok := n.(*ast.CallExpr); ok {
+					if f, ok := c.Fun.(*ast.Ident); !ok || f.Name != "len" {
+						stable = false
+					}
+				}
+			}
+			return true
+		})
+		if k := eng.ExprStr(e); stable && !seen[k] {
+			seen[k] = true
+			atoms = append(atoms, k)
+		}
+	}
+	for _, b := range flow.G.Blocks {
+		if c := eng.CondOf(b); c != nil {
+			leaves(c)
+		}
+	}
+	if len(atoms) > 10 {
+		return flow.Forward(start, false, eng.Walk{Visit: visit})
+	}
+	for mask := 0; mask < 1<<len(atoms); mask++ {
+		val := map[string]bool{}
+		for i, a := range atoms {
+			val[a] = mask&(1<<i) != 0
+		}
+		edge := func(cond ast.Expr, taken bool) bool {
+			t := eng.EvalBool(info, cond, func(e ast.Expr) eng.Tri {
+				if v, ok := val[eng.ExprStr(ast.Unparen(e))]; ok {
+					return eng.TriOf(v)
+				}
+				return eng.Unknown
+			})
+			switch t {
+			case eng.True:
+				return taken
+			case eng.False:
+				return !taken
+			}
+			return true
+		}
+		// the valuation must admit reaching the start point at all
+		if !flow.Reaches(flow.Entry(), start, edge) && flow.Entry() != start {
+			continue
+		}
+		if flow.Forward(start, false, eng.Walk{Visit: visit, Edge: edge}) {
+			return true
+		}
+	}
+	return false
 }
